@@ -54,8 +54,16 @@ structure ReduceRow where
   rebuilds : Bool          -- `cls(*args) == node` with equal hash
 deriving DecidableEq, Repr
 
+/-- a node class lets every exception other than the documented `ZeroDivisionError` through -/
+structure PropagateRow where
+  cls : String
+  exc : String          -- the exception class the probe operand raised
+  propagates : Bool
+deriving DecidableEq, Repr
+
 structure Full where
   bin : Tables.Tbl
+  propagate : List PropagateRow
   unary : List UnaryRow
   builtin : List BuiltinRow
   inplace : List InplaceRow
@@ -113,7 +121,8 @@ def Full.ValidOps (f : Full) : Bool :=
   pySpecFull.all (fun p => binRowOk f.bin p.1 p.2) &&
   unarySpec.all (fun p => unaryOk f p.1 p.2) &&
   builtinSpec.all (fun p => builtinOk f p.1 p.2.1 p.2.2.1 p.2.2.2) &&
-  inplaceSpec.all (fun p => inplaceOk f p.1 p.2)
+  inplaceSpec.all (fun p => inplaceOk f p.1 p.2) &&
+  f.propagate.all (·.propagates) && !f.propagate.isEmpty
 
 /-- C05's part: every slot of every class is visited and a set is returned -/
 def Full.ValidDeps (f : Full) : Bool := f.deps.all (fun r => r.covered && r.returnsSet) && !f.deps.isEmpty
@@ -128,7 +137,7 @@ def Full.Valid (f : Full) : Bool := f.ValidOps && f.ValidDeps && f.ValidReduce
 theorem valid_bin (f : Full) (h : f.ValidOps = true) : f.bin.Valid = true := by
   unfold Full.ValidOps at h
   simp only [Bool.and_eq_true] at h
-  obtain ⟨⟨⟨hb, _⟩, _⟩, _⟩ := h
+  obtain ⟨⟨⟨⟨⟨hb, _⟩, _⟩, _⟩, _⟩, _⟩ := h
   unfold Tables.Tbl.Valid
   rw [List.all_eq_true] at hb ⊢
   intro p hp
